@@ -3901,6 +3901,31 @@ impl Interpreter {
             _ => return Ok(value.clone()),
         };
 
+        // An object's own conversion: obj[Symbol.toPrimitive](hint)
+        let to_primitive_key = PropertyKey::Symbol(Box::new(crate::value::JsSymbol::new(
+            self.well_known_symbols.to_primitive,
+            Some(self.intern("Symbol.toPrimitive")),
+        )));
+        let exotic_method = obj.borrow().get_property(&to_primitive_key);
+        match exotic_method {
+            None | Some(JsValue::Undefined) | Some(JsValue::Null) => {}
+            Some(method) if method.is_callable() => {
+                let hint_arg = JsValue::String(self.intern(hint));
+                let result = self.call_function(method, value.clone(), &[hint_arg])?;
+                if matches!(result.value, JsValue::Object(_)) {
+                    return Err(JsError::type_error(
+                        "Cannot convert object to primitive value",
+                    ));
+                }
+                return Ok(result.value);
+            }
+            Some(_) => {
+                return Err(JsError::type_error(
+                    "Symbol.toPrimitive is not a function",
+                ));
+            }
+        }
+
         // Per ES spec: Date objects prefer "string" for "default" hint
         // This is what Date.prototype[@@toPrimitive] does
         let effective_hint = if hint == "default" {
